@@ -352,7 +352,7 @@ class E2E:
         await s.cmd(f"SELECT {self.name}")
         self.copies = 0
 
-    async def destructive(self, text, rnd, idx):
+    async def destructive(self, text, rnd, idx, kind=None):
         """MOVE / UID MOVE / UID EXPUNGE on a fresh sparse copy."""
         s = self.s
         name = f"w{idx}"
@@ -373,7 +373,7 @@ class E2E:
             await s.cmd("EXPUNGE")
         r = await s.cmd("UID SEARCH ALL")
         uids = sorted(x for y in r.untagged("SEARCH") for x in y.data)
-        kind = rnd.choice(["MOVE", "UID MOVE", "UID EXPUNGE"])
+        kind = kind or rnd.choice(["MOVE", "UID MOVE", "UID EXPUNGE"])
         self.cx["destructive:" + kind] += 1
         if kind == "UID EXPUNGE":
             dele = sorted(rnd.sample(uids, rnd.randint(0, len(uids)))) if uids else []
@@ -392,6 +392,11 @@ class E2E:
         else:
             um = kind.startswith("UID")
             want, may_rej = den(text, uids, um)
+            # some of the messages are flagged \Deleted (by whoever): a MOVE takes what its set denotes, nothing else
+            dele = sorted(rnd.sample(uids, rnd.randint(1, len(uids)))) if uids and rnd.random() < 0.7 else []
+            if dele:
+                await s.cmd(f"UID STORE {','.join(map(str, dele))} +FLAGS.SILENT (\\Deleted)")
+                self.cx["destructive_move_beside_deleted_messages"] += 1
             r = await s.cmd(f"{kind} {text} trash")
             r2 = await s.cmd("UID SEARCH ALL")
             left = {x for y in r2.untagged("SEARCH") for x in y.data}
@@ -448,6 +453,12 @@ async def script(loop, ctx):
                 text = rnd.choice(sets)
                 await e.destructive(text, rnd, j)
                 evaluated += 1
+            if plan.get("destructive"):
+                # sets that denote nothing (only UIDs nobody has) while other messages are flagged \Deleted
+                for j, (text, kind) in enumerate([("9999", "UID MOVE"), ("9990:9999", "UID MOVE"), ("9999", "UID EXPUNGE"), ("9998,9999", "UID MOVE")]):
+                    await e.destructive(text, rnd, 900 + j, kind=kind)
+                    cx["destructive_sets_denoting_nothing"] += 1
+                    evaluated += 1
             if plan.get("arrivals"):
                 await e.arrivals(rnd, plan["arrivals"])
                 evaluated += plan["arrivals"]
